@@ -89,7 +89,7 @@ PROPS = {
               ["Zap.C13_merged", "Zap.C13_closed", "Zap.C13_nodup_sorted", "Zap.C13_terms_vanish", "Zap.C13_thesaurus_preserved",
                "Zap.C13_observational", "Zap.C13_id_independent", "Zap.enumerate_spec"],
               SYN_FILES + MERGE_FILES),
-    "C17": _p([{"gen": "C17"}], ["ZapProofs.Props.C17", "ZapProofs.Props.C04"],
+    "C17": _p([{"regress": "d7_overwrite_longer_file.script"}, {"gen": "C17"}], ["ZapProofs.Props.C17", "ZapProofs.Props.C04"],
               ["Zap.C17.c17SideCondition_holds", "Zap.C17.C17_persist_fault", "Zap.C17.C17_merge_fault", "Zap.C17.C17_no_fault",
                "Zap.C17.C17_merge_outcomes", "Zap.C17.C17_writeTo_fault", "Zap.C04.footer_crc_is_crc_of_all_preceding_bytes"],
               THEORY_FILES + ["ZapProofs/Props/C17.lean"],
